@@ -38,7 +38,7 @@ def rules(chk, db):
     encrules.narrowing(chk, db, 'NR', {'ReadPayload', 'Read', 'WritePayload', 'Write'})
     w = chk.extra.get('struct_member_order_w', {})
     r = chk.extra.get('struct_member_order_r', {})
-    for t in sorted(set(w) | set(r)):
+    for t in sorted(set(w) & set(r)):      # types that are both written and read somewhere in the analysed units
         chk.decide(w.get(t) == r.get(t), 'MO', 'nop/base/members.h <%s>' % encrules.short_t(t),
                    'members written %s, read %s' % (w.get(t), r.get(t)), function=t)
     ids = {'T': None, 'G': None, 'E': None, 'C': 'C'}
